@@ -361,6 +361,91 @@ func c16Sys(o *out, cs c16SysCase) (blocked bool) {
 	return blocked
 }
 
+// ---------------------------------------------------------------- (1b) an interval that never elapses
+
+// c16Long runs one goroutine's program against an interval recorder whose interval (one hour) never elapses during
+// the run, bare or behind NewSynchronizedRecorder: the flusher only ever sees its cancellation, never a tick. After
+// every EndTest / Reset the flusher goroutine has to be gone (it is not allowed to linger until the next tick), every
+// BeginIteration that follows one starts exactly one, and the EndTest samples are the sums since the previous
+// EndTest / Reset.
+func c16Long(o *out, kind string, wrapped bool, prog []string) (blocked bool) {
+	base := c16EventsGoroutines()
+	coll := &c16Coll{}
+	ctx, cancel := context.WithCancel(context.Background())
+	defer cancel()
+	rec := c16New(kind, ctx, coll, time.Hour)
+	if wrapped {
+		rec = events.NewSynchronizedRecorder(rec)
+	}
+	note := "ok"
+	call := func(name string, f func()) {
+		if blocked {
+			return
+		}
+		if !c16Watch(c16Watchdog, func() { coll.markUser(goid()); f() }) {
+			blocked = true
+			note = "blocked:" + name
+		}
+	}
+	live := func() int { return c16EventsGoroutines() - base }
+	waitFor := func(d time.Duration, ok func(int) bool) int {
+		dl := time.Now().Add(d)
+		for {
+			n := live()
+			if ok(n) || time.Now().After(dl) {
+				return n
+			}
+			time.Sleep(500 * time.Microsecond)
+		}
+	}
+	flushers, lingering := 0, 0
+	for _, t := range prog {
+		before := live()
+		switch t[0] {
+		case 'B':
+			call("BeginIteration", rec.BeginIteration)
+			if n := waitFor(20*time.Millisecond, func(n int) bool { return n > before }); n > before {
+				flushers += n - before
+			}
+		case 'I':
+			var k int64
+			fmt.Sscan(t[1:], &k)
+			call("IncOperations", func() { rec.IncOperations(k) })
+		case 'E':
+			call("EndIteration", func() { rec.EndIteration(time.Millisecond) })
+		case 'T':
+			call("EndTest", func() { _ = rec.EndTest() })
+			lingering += waitFor(300*time.Millisecond, func(n int) bool { return n <= 0 })
+		case 'R':
+			call("Reset", rec.Reset)
+			lingering += waitFor(300*time.Millisecond, func(n int) bool { return n <= 0 })
+		}
+	}
+	left := 0
+	if !blocked {
+		left = waitFor(300*time.Millisecond, func(n int) bool { return n <= 0 })
+	}
+	if left < lingering {
+		left = lingering // a flusher that outlived its cycle and was only ended by a later call
+	}
+	if left < 0 {
+		left = 0
+	}
+	samples, bad := coll.decoded()
+	var end []int64
+	for _, sm := range samples {
+		if coll.userGid[sm.gid] {
+			end = append(end, sm.ops)
+		}
+	}
+	if bad != "" {
+		note = "harness:" + strings.ReplaceAll(bad, " ", "_")
+	}
+	o.printf("LNG %s %d :: blocked=%d live=%d flushers=%d end=%s note=%s prog=%s\n", kind, b2i(wrapped), b2i(blocked), left,
+		flushers, c16Csv(end), note, strings.Join(prog, ","))
+	return blocked
+}
+
 // ---------------------------------------------------------------- (2)(3) stress
 
 type c16Worker struct {
@@ -658,6 +743,9 @@ func c16Serial(o *out, inner string, G int) bool {
 			it.Close()
 			cancel()
 		}
+		if ok && atomic.LoadInt32(&coll.adds) != int32(G*6) {
+			meta = 0 // not every AddEvent reached the collector behind the wrapper
+		}
 		o.printf("SER %s %d :: blocked=%d overlap=%d adds=%d meta=%d\n", inner, G, b2i(!ok), ov, atomic.LoadInt32(&coll.adds), meta)
 		return !ok
 	}
@@ -737,6 +825,48 @@ func init() {
 							if c16Sys(o, cs) {
 								nblocked++
 							}
+						}
+					}
+				}
+			}
+		}
+		if part == "all" || part == "sys" {
+			nprog := 6
+			if thorough {
+				nprog = 60
+			}
+			nblocked := 0
+			for i := 0; i < nprog; i++ {
+				for _, kind := range []string{"perf", "hist"} {
+					for _, wrapped := range []bool{false, true} {
+						// cycles of Begin / increments / End, closed by EndTest or Reset; the last one by EndTest
+						var prog []string
+						ncyc := 1 + r.intn(4)
+						for c := 0; c < ncyc; c++ {
+							stamped := false
+							for j := r.intn(4); j >= 0; j-- {
+								switch r.intn(4) {
+								case 0:
+									prog = append(prog, "B")
+									stamped = true
+								case 1:
+									if stamped {
+										prog = append(prog, "E")
+									}
+								default:
+									prog = append(prog, fmt.Sprintf("I%d", 1+r.i64n(1000)))
+								}
+							}
+							if c == ncyc-1 {
+								prog = append(prog, "B", fmt.Sprintf("I%d", 1+r.i64n(1000)), "T")
+							} else if r.chance(1, 2) {
+								prog = append(prog, "R")
+							} else {
+								prog = append(prog, "T")
+							}
+						}
+						if nblocked < 3 && c16Long(o, kind, wrapped, prog) {
+							nblocked++
 						}
 					}
 				}
